@@ -72,6 +72,9 @@ def run_devicevar(tape):
             pass
 
     env = Env(tape, with_kernel=True, possible_cpus=4)
+    # (the process that generates the program may itself be pinned to one CPU; the
+    # program runs wherever the packets arrive)
+    env.affinity_cpus = tape.pick("cfg/cpus-this-process-may-use", [None, None, 1])
     world, kernel = env.world, env.kernel
     violations = []
     params = dict(fmt=fmt, kind="devicevar", amount=amount_kind, minus=sub_op,
@@ -277,6 +280,10 @@ def run(tape, scenario):
     # penalty that happens to be nothing): instances that take different branches race
     zero_branch = kind in ("array", "subprog") and amount_kind in ("small", "large") \
         and not cond_prefix and tape.chance("c06/zero-amount-in-one-branch", 30)
+    # the amount is an expression that reads the variable being updated, though what it
+    # reads does not matter: target += (target & 0) + K
+    reads_itself = kind == "array" and amount_kind in ("small", "large") and fmt != "x" \
+        and not cond_prefix and not zero_branch and tape.chance("c06/amount-reads-the-target", 25)
 
     def branch_on_packet(p, target_iadd_of, a):
         with p.pI[20] > cond_threshold as Else:
@@ -292,6 +299,8 @@ def run(tape, scenario):
     def program(self):
         if kind in ("array",):
             def plain(a):
+                if reads_itself:
+                    a = (self.target & 0) + a
                 if sub_op:
                     self.target -= a
                 else:
@@ -379,6 +388,9 @@ def run(tape, scenario):
 
     P = type("P", (XDP,), ns)
     env = Env(tape, with_kernel=True, possible_cpus=4)
+    # (the process that generates the program may itself be pinned to one CPU; the
+    # program runs wherever the packets arrive)
+    env.affinity_cpus = tape.pick("cfg/cpus-this-process-may-use", [None, None, 1])
     world, kernel = env.world, env.kernel
     violations = []
 
@@ -389,6 +401,8 @@ def run(tape, scenario):
     params = dict(fmt=fmt, kind=kind, amount=amount_kind, minus=sub_op)
     if zero_branch:
         params["zero_branch"] = True
+    if reads_itself:
+        params["reads_itself"] = True
     sched = []
     interleaved = False
     raw = b""
